@@ -237,6 +237,53 @@ fn faulted_run(initial: &std::sync::Arc<Image>, part: usize, cfg: &HistCfg, ops:
     };
     // ---- afterwards every handle can still be queried and closed --------------------------------
     ex.disk.with(|s| s.fault = Fault::None);
+    // ---- nothing of the failed call lives on in the library: what it now lists is what is on the medium
+    if single {
+        let open_dirs: Vec<embedded_sdmmc::RawDirectory> = ex.dirs.iter().flatten().cloned().collect();
+        for d in open_dirs {
+            let mut live: Vec<crate::fsx::EntryView> = Vec::new();
+            let r = report::catch(|| ex.vm.iterate(Fl::Raw, d, &mut |e| live.push(crate::fsx::view(e))).map_err(|e| crate::vm::ek(&e)));
+            if !matches!(r, Ok(Ok(()))) {
+                continue; // (judged by the handle checks below)
+            }
+            let img = ex.disk.0.borrow();
+            let mut per_block: HashMap<u32, usize> = HashMap::new();
+            let mut bad: Option<String> = None;
+            for e in &live {
+                *per_block.entry(e.blk).or_insert(0) += 1;
+                let b = img.img.read(e.blk);
+                let o = e.off as usize;
+                if o + 32 > 512 || b[o..o + 11] != e.name[..] || u32::from_le_bytes([b[o + 28], b[o + 29], b[o + 30], b[o + 31]]) != e.size {
+                    bad = Some(format!("it lists {:?} ({} bytes) at block {} offset {}, the medium holds {:02x?} there", crate::fatref::display_name(&e.name), e.size, e.blk, e.off, &b[o.min(480)..o.min(480) + 11]));
+                    break;
+                }
+            }
+            if bad.is_none() {
+                for (blk, n) in &per_block {
+                    let b = img.img.read(*blk);
+                    let mut on_medium = 0usize;
+                    for s in b.chunks(32) {
+                        if s[0] == 0x00 {
+                            break;
+                        }
+                        if s[0] != 0xE5 && (s[11] & 0x3F) != 0x0F {
+                            on_medium += 1;
+                        }
+                    }
+                    if on_medium != *n {
+                        bad = Some(format!("it lists {} entries from directory block {}, the medium holds {} live entries there", n, blk, on_medium));
+                        break;
+                    }
+                }
+            }
+            drop(img);
+            rep.count("live_listing_vs_medium_after_fault", 1);
+            if let Some(msg) = bad {
+                rep.violate(v("C11.bystander-damaged", ops[fi].kind(), "library's view differs from the medium", format!("after the failed {} ({}) the library's view of an open directory is not what the medium holds: {} - the failed call lives on in the library", ops[fi].describe(), plan.label, msg), mk_case(fi)));
+                return false;
+            }
+        }
+    }
     let mut files: Vec<(usize, embedded_sdmmc::RawFile)> = ex.files.iter().enumerate().filter_map(|(i, f)| f.map(|f| (i, f))).collect();
     files.extend(ex.displaced_files.iter().map(|f| (99, *f)));
     for (slot, f) in files {
